@@ -30,6 +30,7 @@ func Run(c *engine.Ctx) {
 	// first, because it is small: a later group that exhausts the memory cap must not keep it from running
 	c09.AfterEditGroup(c, "Intersect", c09.AfterEditLists(), func(a, b *sbom.NodeList) *sbom.NodeList { return a.Intersect(b) })
 	L := c09.Lists(c.Thorough(), "pairs")
+	c09.SameObjectGroup(c, "Intersect", L, func(a, b *sbom.NodeList) *sbom.NodeList { return a.Intersect(b) })
 	c.Group("pairs")
 	c.Bound("pairs", fmt.Sprintf("all %d x %d ordered pairs of list specs (same family as C09)", len(L), len(L)))
 	for i := range L {
